@@ -66,7 +66,7 @@ def obligations(tier):
         o = ob("C17", "e2c.default." + did, "vt.harness.C17:rerun_twin", {"did": did, "steps": steps, "mode": "default"}, timeout=900)
         o["antecedents"] = ante
         obs.append(o)
-    sets = [("D18", 5, ["a/0", "b/0", "c/0", "j/0"]), ("D04", 4, ["a/0", "b/0", "j/0"]), ("D11", 4, ["w/0", "z/0"]), ("D01", 3, ["a/0", "b/0", "c/0"])]
+    sets = [("D18", 5, ["a/0", "b/0", "c/0", "j/0"]), ("D04", 4, ["a/0", "b/0", "j/0"]), ("D11", 4, ["w/0", "z/0"]), ("D01", 3, ["a/0", "b/0", "c/0"]), ("D11u", 5, ["t1/0", "w/0"])]
     if tier != "quick":
         sets = [("D18", 5, ["s/0", "a/0", "b/0", "c/0", "j/0"]), ("D04", 4, ["s/0", "a/0", "b/0", "j/0"]), ("D11", 4, ["w/0", "z/0"]), ("D01", 3, ["a/0", "b/0", "c/0"]), ("D12p", 6, ["a/0", "b/0", "c/0", "r/0", "j/0"])]
     for did, steps, labels in sets:
